@@ -95,8 +95,9 @@ Definition reg : list (plugin beh nat) :=
     {| p_name := n_v6only; p_setup4 := None; p_setup6 := Some (fun _ => SOk 6%nat) |};
     {| p_name := n_dual; p_setup4 := Some (fun _ => SOk BPass); p_setup6 := Some (fun _ => SOk 66%nat) |};
     {| p_name := n_fail;
-       p_setup4 := Some (fun args => match args with [[101]] => SErr | _ => SNil end);     (* "e" = error, else nil handler *)
-       p_setup6 := Some (fun args => match args with [[101]] => SErr | _ => SNil end) |} ].
+       (* "e" = error, "h" = error although a handler is returned, else nil handler *)
+       p_setup4 := Some (fun args => match args with [[101]] | [[104]] => SErr | _ => SNil end);
+       p_setup6 := Some (fun args => match args with [[101]] | [[104]] => SErr | _ => SNil end) |} ].
 
 Definition beh_eqb (a b : beh) : bool :=
   match a, b with
